@@ -220,6 +220,48 @@ func runC17(in sx.SX) (obs sx.SX, fail string) {
 		}
 		out = append(out, sx.I(code))
 	}
+	// lookups interleaved with the registrations: after every step every probe answers for the history so far
+	if fail == "" {
+		m2 := utilities.NewCharReferenceMap()
+		var h2 []reg
+		func() {
+			defer func() { recover() }()
+			for step, o := range sx.AsList(l[0]) {
+				oo := sx.AsList(o)
+				switch sx.AsInt(oo[0]) {
+				case 0:
+					a, b, r := sx.AsInt(oo[1]), sx.AsInt(oo[2]), sx.AsInt(oo[3])
+					m2.AddInterval(rune(a), rune(b), c17refs[r])
+					if b >= 0xffff {
+						b = 0xfffe
+					}
+					h2 = append(h2, reg{a, b, r})
+				case 1:
+					r := sx.AsInt(oo[1])
+					m2.AddDefaultInterval(c17refs[r])
+					h2 = append(h2, reg{0, 0xfffe, r})
+				default:
+					m2.Clear()
+					h2 = nil
+				}
+				for _, p := range sx.AsList(l[1]) {
+					c := sx.AsInt(p)
+					want := int64(0)
+					if c >= 0 && c <= 0xfffe {
+						for i := len(h2) - 1; i >= 0; i-- {
+							if h2[i].a <= c && c <= h2[i].b {
+								want = h2[i].ref
+								break
+							}
+						}
+					}
+					if got := m2.Lookup(rune(c)); got != c17refs[want] && fail == "" {
+						fail = fmt.Sprintf("after step %d of the history (lookups after every step), Lookup(%#x) returned %v, the most recent covering registration carries %v", step, c, got, c17refs[want])
+					}
+				}
+			}
+		}()
+	}
 	// "a tokenizer hands every character of a configured range to the configured state, and disabling a range really
 	// disables it": the same history replayed on the word and whitespace states (reference = enabled, nil = disabled)
 	if fail == "" {
